@@ -655,6 +655,8 @@ func (c *Content) UnmarshalText(data []byte) error {
 	if len(data) > 2 {
 		if data[0] == '"' && data[len(data)-1] == '"' {
 			*c = Content(data[1 : len(data)-1])
+		} else {
+			*c = Content(data)
 		}
 	} else {
 		*c = Content(data)
